@@ -51,6 +51,10 @@ class _ValueTextWrapper(textwrap.TextWrapper):
     line continuation and removed.
     """
 
+    # The characters that TextWrapper treats as white space (str.strip()
+    # would also take the no-break space and others for white space).
+    _ws = "\t\n\x0b\x0c\r "
+
     _span_re = re.compile(r"\"[^\"]*\"|'[^']*'|<[^>]*>")
 
     def __init__(self, fold_text=False, **kwargs):
@@ -62,7 +66,7 @@ class _ValueTextWrapper(textwrap.TextWrapper):
         for chunk in super()._split(text):
             if (
                 len(chunks) > 1
-                and chunks[-1].strip() == ""
+                and chunks[-1].strip(self._ws) == ""
                 and chunks[-2].endswith("-")
             ):
                 space = chunks.pop()
@@ -91,8 +95,8 @@ class _ValueTextWrapper(textwrap.TextWrapper):
                 continue
             if (
                 len(chunks) > 0
-                and chunks[-1].strip() != ""
-                and piece.strip() != ""
+                and chunks[-1].strip(self._ws) != ""
+                and piece.strip(self._ws) != ""
             ):
                 chunks[-1] += piece
             else:
@@ -259,7 +263,7 @@ class PVLEncoder(object):
 
         if len(prefix + s + self.newline) > self.width and "=" in s:
             (preq, _, posteq) = s.partition("=")
-            new_prefix = prefix + preq.strip() + " = "
+            new_prefix = prefix + preq.strip(" ") + " = "
 
             # Lines may only be broken where white space is insignificant.
             wrapper = _ValueTextWrapper(
@@ -272,7 +276,7 @@ class PVLEncoder(object):
                 break_long_words=False,
                 break_on_hyphens=False,
             )
-            return self.newline.join(wrapper.wrap(posteq.strip()))
+            return self.newline.join(wrapper.wrap(posteq.strip(" ")))
         else:
             return prefix + s
 
